@@ -470,6 +470,14 @@ func (g *graph) addBranch(startNode string, branch *GraphBranch, skipData bool) 
 		g.nodes[startNode].cr.inputType = branch.inputType
 		g.nodes[startNode].cr.outputType = branch.inputType
 		g.nodes[startNode].cr.genericHelper = branch.genericHelper.forPredecessorPassthrough()
+
+		// pass the newly known type along the edges of this node that were waiting for it right
+		// now, as addEdge does: otherwise (a branch without end nodes) they stay pending until a
+		// later edge brings a second type into the same update, and which of the two types the
+		// waiting passthrough nodes get depends on the iteration order of toValidateMap
+		if e := g.updateToValidateMap(); e != nil {
+			return e
+		}
 	}
 
 	// check branch condition type
